@@ -185,8 +185,12 @@ func runC04(c *vk.Ctx) {
 			S := b.pool.GetTotalShares()
 			W := b.pool.GetTotalWeight()
 			before := b.logValuePerShare()
-			op := r.Intn(8)
-			opName := []string{"swap-in", "swap-out", "join-single", "join-exact-shares", "join-all", "exit-all", "exit-single-out", "loop"}[op]
+			op := r.Intn(9)
+			opName := []string{"swap-in", "swap-out", "join-single", "join-exact-shares", "join-all", "exit-all", "exit-single-out", "loop", "join-uneven"}[op]
+			preAmts := map[string]sdkmath.Int{}
+			for _, a := range b.pool.GetAllPoolAssets() {
+				preAmts[a.Token.Denom] = a.Token.Amount
+			}
 			sig := map[string]any{"pool": "balancer", "op": opName, "exact_family": b.exact}
 			sizeCls := "mid"
 			var outcome string
@@ -366,6 +370,25 @@ func runC04(c *vk.Ctx) {
 					c.Logf("  -> shares burned %s, exact %s", sh, exactSh.Text('f', 6))
 					sig["pow_base_below_half"] = y.Cmp(bf(0.5)) < 0
 					outcome = c04Compare(c, sig, "shares-in", bfI(sh), exactSh, c04Tol(bfI(S), y, nw, nil), true, false, nil)
+				case 8: // all assets in arbitrary (uneven) amounts: proportional part plus single-asset joins of the rest
+					var coins sdk.Coins
+					for _, a := range b.pool.GetAllPoolAssets() {
+						x := c04Amount(r, a.Token.Amount)
+						if !x.IsPositive() {
+							x = sdkmath.OneInt()
+						}
+						coins = coins.Add(sdk.NewCoin(a.Token.Denom, x))
+					}
+					sizeCls = "multi"
+					c.Logf("JoinPool(%s) S=%s fee=%s", coins, S, b.fee)
+					sh, e := b.pool.JoinPool(ctx, coins, b.fee)
+					if e != nil {
+						err = e
+						return
+					}
+					c.Logf("  -> %s shares", sh)
+					// no closed form is asserted here: the value-per-share invariant below is the oracle
+					outcome = "ok"
 				case 7: // closed loop A -> B -> A in the exact sub-family
 					if !(b.exact && c04IntRatio(ain.Weight, aout.Weight) && c04IntRatio(aout.Weight, ain.Weight)) {
 						outcome = "skip"
@@ -412,7 +435,7 @@ func runC04(c *vk.Ctx) {
 				after := b.logValuePerShare()
 				drop := bfNew().Sub(before, after)
 				// allowance: relative precision of the op measured against the reserve that shrank
-				allow := c04InvariantAllowance(b, op, ain, aout, S)
+				allow := c04InvariantAllowance(b, op, ain, aout, S, preAmts)
 				c.Max("bal_invariant_drop_over_allowance", bfF64(bfNew().Quo(drop, allow)), opName)
 				if drop.Cmp(allow) > 0 {
 					sig2 := map[string]any{"pool": "balancer", "op": opName, "exact_family": b.exact}
@@ -486,7 +509,7 @@ func c04Compare(c *vk.Ctx, sig map[string]any, what string, got, exact, tol *big
 	return "ok"
 }
 
-func c04InvariantAllowance(b *c04Bal, op int, ain, aout balancer.PoolAsset, S sdkmath.Int) *big.Float {
+func c04InvariantAllowance(b *c04Bal, op int, ain, aout balancer.PoolAsset, S sdkmath.Int, preAmts map[string]sdkmath.Int) *big.Float {
 	// every op's result is allowed reserve·(pp+…)+1 units of error; the resulting relative change of
 	// one reserve (or of the share count) bounds the change of the log-invariant. Use the post-state
 	// reserve as the denominator (an op that nearly drains a reserve amplifies the relative error).
@@ -495,7 +518,9 @@ func c04InvariantAllowance(b *c04Bal, op int, ain, aout balancer.PoolAsset, S sd
 	worst := bfNew()
 	for _, a := range b.pool.GetAllPoolAssets() {
 		pre := ain.Token.Amount
-		if a.Token.Denom == aout.Token.Denom {
+		if op == 8 {
+			pre = preAmts[a.Token.Denom] // every asset moves in an uneven all-asset join
+		} else if a.Token.Denom == aout.Token.Denom {
 			pre = aout.Token.Amount
 		} else if a.Token.Denom != ain.Token.Denom {
 			continue
